@@ -88,16 +88,16 @@ Proof.
   intros W. destruct o; cbn [step].
   - apply of_result_wf; [exact W|]. intros t' H. unfold filter_ids in H.
     destruct (forallb _ keep); [|discriminate].
-    assert (E : t' = filter_mask (map (fun i => xorb (zmem i keep) invert) (ids a t)) a t) by congruence.
-    rewrite E. apply wf_filter_mask. exact W.
-  - cbn [fst]. unfold filter_pred. apply wf_filter_mask. exact W.
+    assert (E : t' = filter_table (map (fun i => xorb (zmem i keep) invert) (ids a t)) a t) by congruence.
+    rewrite E. apply wf_filter_table. exact W.
+  - cbn [fst]. unfold filter_pred. apply wf_filter_table. exact W.
   - destruct axis3 as [|[p|p|]|p]; cbv beta iota; cbn [fst];
-      first [apply wf_remove_empty_whole; exact W | unfold remove_empty_axis; apply wf_filter_mask; exact W].
+      first [apply wf_remove_empty_whole; exact W | unfold remove_empty_axis; apply wf_filter_table; exact W].
   - apply of_result_wf; [exact W|]. intros t' H. unfold head in H.
     destruct ((n <=? 0)%Z || (m <=? 0)%Z); [discriminate|].
-    assert (E : t' = filter_mask (head_mask (Z.to_nat m) (nsamp t)) Samp
-                       (filter_mask (head_mask (Z.to_nat n) (nobs t)) Obs t)) by congruence.
-    rewrite E. apply wf_filter_mask. apply wf_filter_mask. exact W.
+    assert (E : t' = filter_table (head_mask (Z.to_nat m) (nsamp t)) Samp
+                       (filter_table (head_mask (Z.to_nat n) (nobs t)) Obs t)) by congruence.
+    rewrite E. apply wf_filter_table. apply wf_filter_table. exact W.
   - apply of_result_wf; [exact W|]. intros t' H. eapply sort_order_wf; eassumption.
   - simpl. apply wf_transpose. exact W.
   - simpl. rewrite copy_id. exact W.
